@@ -2,6 +2,8 @@
 C04 — tokens are unforgeable, class-separated and bound to their session.
 -/
 import IdpyVerif.Model.Resolve
+import IdpyVerif.Proofs.Handler
+import IdpyVerif.Gen.Tables
 namespace Idpy.Props.C04
 open Idpy Idpy.Resolve
 
@@ -75,5 +77,92 @@ theorem bearer_auth_needs_live_access_token (decode : Decode) (minted : List Min
   obtain ⟨t, ht, hv, hc, ha, hs⟩ := honoured_is_minted decode minted .bearerAuth s sid h
   refine ⟨t, ht, hv, ?_, ha, hs⟩
   cases hcl : t.cls <;> simp [slotAccepts, hcl] at hc ⊢
+
+/-! ### The handler layer itself (Model/Handler.lean): DefaultToken.info, TokenHandler.get_handler,
+    the class tags of ALT_TOKEN_NAME and the handler order regenerated from the source (Gen.handlerTags).
+    The cipher is idealised (a handler decrypts exactly what was encrypted under its key); nothing else is. -/
+section HandlerLayer
+open Idpy.Handler Idpy.LV
+
+/-- the table-side obligation: class names are non-empty, pairwise distinct, and no class name is another
+    (or its own) alternative tag -/
+def tagsOk (tags : List (Str × Str)) : Bool :=
+  tags.all fun a => !a.1.isEmpty && tags.all fun b => (a == b) || (a.1 != b.1 && a.1 != b.2)
+
+/-- holds for the table regenerated from /repo on this run -/
+theorem generated_tags_ok : tagsOk Gen.handlerTags = true := by decide
+
+theorem separated_of_tagsOk (tags : List (Str × Str)) (hok : tagsOk tags = true) (hs : List H)
+    (hall : ∀ h ∈ hs, (h.name, h.alt) ∈ tags) (h : H) (hm : h ∈ hs) : Separated h hs ∧ h.name ≠ [] := by
+  unfold tagsOk at hok
+  rw [List.all_eq_true] at hok
+  have ha := hok _ (hall h hm)
+  simp only [Bool.and_eq_true, Bool.not_eq_true', List.all_eq_true] at ha
+  refine ⟨?_, ?_⟩
+  · intro h' hm'
+    have hb := ha.2 _ (hall h' hm')
+    simp only [Bool.or_eq_true, beq_iff_eq, Prod.mk.injEq, Bool.and_eq_true, bne_iff_ne, ne_eq] at hb
+    rcases hb with ⟨h1, h2⟩ | h3
+    · by_cases hk : h'.key = h.key
+      · left; cases h; cases h'; simp_all
+      · right; left; exact hk
+    · right; right; exact h3
+  · intro he; simp [he] at ha
+
+/-- **every genuine token is resolved by the handler of its own class**, whatever keys the handlers use (one key
+    shared by all of them included), whatever the order, for every random part, session id and expiry text:
+    no other handler of the list claims it and none makes the search fail -/
+theorem genuine_token_found_by_own_handler (hs : List H) (hall : ∀ h ∈ hs, (h.name, h.alt) ∈ Gen.handlerTags)
+    (h : H) (hm : h ∈ hs) (rnd sid exp : Str) (hl : LastOk [rnd, h.name, sid, exp]) :
+    getHandler hs (mint h rnd sid exp) =
+      some (some (h, { id := rnd, cls := h.name, sid := some sid, exp := some exp })) := by
+  obtain ⟨hsep, hn⟩ := separated_of_tagsOk _ generated_tags_ok hs hall h hm
+  exact getHandler_own hs h rnd sid exp hn hl hm hsep
+
+/-- **what a handler accepts was encrypted under its own key and carries its own class tag** — with the key known
+    to the provider only, a string resolves as class `c` only if the provider packed it as class `c` -/
+theorem handler_accepts_only_own_key_and_tag (h : H) (t : Tok) (i : Info) (hi : info h t = .ok i) :
+    t.key = h.key ∧ ∃ id cls rest, unpack t.plain = some (id :: cls :: rest) ∧ (cls = h.name ∨ cls = h.alt) ∧
+      i.cls = h.name ∧ i.sid = rest.head? := by
+  obtain ⟨hk, id, cls, rest, hu, hc, rfl⟩ := info_ok_inv h t i hi
+  exact ⟨hk, id, cls, rest, hu, hc, rfl, rfl⟩
+
+/-- a genuine token offered with `handler_key` naming ANOTHER class is refused by the session manager, shared key or not -/
+theorem genuine_token_refused_in_other_slot (hs : List H) (hall : ∀ h ∈ hs, (h.name, h.alt) ∈ Gen.handlerTags)
+    (h h' : H) (hm : h ∈ hs) (hne : h'.name ≠ h.name) (hfind : hs.find? (fun x => x.name = h'.name) = some h')
+    (rnd sid exp : Str) (hl : LastOk [rnd, h.name, sid, exp]) :
+    sidBy hs (some h'.name) (mint h rnd sid exp) = none := by
+  have hm' : h' ∈ hs := List.mem_of_find?_eq_some hfind
+  obtain ⟨hsep, hn⟩ := separated_of_tagsOk _ generated_tags_ok hs hall h hm
+  have ht : tagOf h = h.name := by
+    unfold tagOf; cases hh : h.name with
+    | nil => exact absurd hh hn
+    | cons a as => simp
+  have hskip : info h' (mint h rnd sid exp) = .skip := by
+    apply info_foreign h h' rnd sid exp (by rw [ht]; exact hl)
+    rcases hsep h' hm' with h1 | h2 | h3
+    · exact absurd (by rw [h1]) hne
+    · exact Or.inl h2
+    · exact Or.inr (by rw [ht]; exact h3)
+  unfold sidBy
+  simp [hfind, hskip]
+
+/-- and with the right `handler_key` (or none) it resolves to the session id it was minted for -/
+theorem genuine_token_resolves_to_its_sid (hs : List H) (hall : ∀ h ∈ hs, (h.name, h.alt) ∈ Gen.handlerTags)
+    (h : H) (hm : h ∈ hs) (rnd sid exp : Str) (hl : LastOk [rnd, h.name, sid, exp]) (hsid : sid ≠ []) :
+    sidBy hs none (mint h rnd sid exp) = some sid := by
+  unfold sidBy
+  rw [genuine_token_found_by_own_handler hs hall h hm rnd sid exp hl]
+  cases sid with
+  | nil => exact absurd rfl hsid
+  | cons a as => simp
+
+/-- non-vacuity: the generated table with ONE key for all handlers; an access token with an expiry text -/
+example : getHandler (Gen.handlerTags.map fun p => ({ name := p.1, alt := p.2, key := 0 } : H))
+      (mint { name := Wire.lit "access_token", alt := [84], key := 0 } [120] [115] [49]) =
+    some (some ({ name := Wire.lit "access_token", alt := [84], key := 0 }, { id := [120], cls := Wire.lit "access_token", sid := some [115], exp := some [49] })) := by
+  decide +kernel
+
+end HandlerLayer
 
 end Idpy.Props.C04
